@@ -81,6 +81,11 @@ CLAIMED = {
              "Tie: nine translator facts (request -> queued closure, ordered send + FinishedInitialSync last, build order, EntitySpawn before components, tracked / registered / non-excluded filter, parent pairs, client ignores unknown uuid, duplicate-spawn guard, class gates); real sessions (host + 1..3 clients building entities, components, hierarchies, four asset kinds, despawns; then one writer keeps changing things every frame while a new client connects and/or a client that left returns; per-peer switch combinations): every message a joiner really received for every (entity, component) key is replayed through the model's handlers and replica / value / count are compared after every frame of the joiner; oracle at the final drain: same uuid set (none twice), same registered component values, same parent links, same uuid assets of the classes enabled on both as the host.",
         note="Trusted: as for C02 (scheduler, Commands, renet ordered channel modelled, projection glue); the moment the host's transport accepts the joiner is an input of the model; the snapshot's internal order across different entities is covered by translator facts and the oracle, not by the one-key slice; deletes are not part of the slice (the joiner-side correspondence skips keys whose entity is deleted; the oracle covers them). KNOWN-FINDING D16 and D17 are printed for exactly their recorded histories; any other difference is a violation.",
         technique="Lean 4 proof (snapshot-slice invariant for newcomers and returners, both epoch kinds, all interleavings; asset epoch invariant extended by the snapshot action) + per-key joiner-side trace correspondence + final-state oracle", ref="§7 C03"),
+    "C07": dict(
+        text="Machine-checked proof on the promotion slice (who holds which transport, the host_promotion_in_progress flag of both peers, the former host's snapshot request; frames of both peers with the network's part — delivery of PromoteToHost / NewHost, acceptance and report of the new connection — as arbitrary inputs): for a one-client session every schedule, once nothing moves any more, ends with the promoted client hosting alone without its client transport, the former host's server closed and its client connected, both flags clear and exactly one snapshot request by the former host; some peer hosts at every moment; the finitely many reachable states are enumerated and their closure under all nine actions is checked by the kernel (decide +kernel, no native_decide). The content of the session after the hand-over is C03 (the former host is a returning client that requests the snapshot), later joiners are C03 newcomers. Chains of promotions are chains of runs of the slice (D7a repaired). Promotions with two or more clients do not complete (D7, kernel-checked witness) and changes the former host's application makes while between roles are lost / divergent (D18): both recorded as known findings. "
+             "Tie: nine translator facts (request, promoted handler, NewHost announcement on entering Connected, both NewHost handlers incl. the fresh RenetClient, close-when-empty-and-flagged, promoted drops its client transport, events before messages, verify skips the snapshot exactly on the flag); real sessions with distinct ports per peer (1..3 clients, any client promoted, hand-overs with the applications idle or busy, second promotions, joins after the hand-over, operations from every peer afterwards): every first hand-over of a one-client session is replayed frame by frame on the model (network inputs read off the trace; server transport, flag, client state and client count of both peers after every frame; snapshot requests at the end); oracle at every quiescent drain after a hand-over: exactly one host, everybody else connected to it as a client, former host's server gone, equal uuid sets (none twice), values and links.",
+        note="Trusted: Lean kernel + standard axioms (propext only for the closure proofs); renet/netcode handshake, bevy run conditions and state transitions modelled, tied by the frame-by-frame correspondence; the correspondence replays first hand-overs of one-client sessions only (later ones are judged by the oracle); KNOWN-FINDING D7 is attributed to every failing history that promotes while two or more clients are connected, D18 to differences on keys the former host's application touched during the hand-over; anything else is a violation.",
+        technique="Lean 4 proof (finite reachable-state closure checked by the kernel, lifted to all schedules; C03 theorems for the content) + frame-by-frame trace correspondence + role / content oracle", ref="§7 C07"),
     "C06": dict(
         text="Machine-checked proof on two slices — announcement + HTTP download (mesh, image, audio: react = debounce/serve/announce, poll = queue a download from the advertised owner and relay, fetch = GET returning what the owner's cache holds at that moment, process = apply + one debounce entry + one AssetEvent) and inline materials (react, poll, deferred apply + relay): over any sequence of writer epochs (host->clients, client->host->clients, the writer changing between epochs once drained, any number of overwrites per epoch in any rhythm), any number of clients and every schedule of reactions, deliveries, downloads and applications, every peer ends with the content of the last publication under the uuid and nothing (debounce entry, slot, download) is left over; readers never announce (no echo). The three repaired defects are refuted on the pre-repair models by kernel-checked witnesses. Identity of the bytes across encode / HTTP / decode is C11, C12, C13, C14. "
              "Tie: eight translator facts (counted debounce entries and their two sites, request() queues unconditionally, worker stores into the uuid's slot, process_* shape, the six react_* functions, both receivers and the host relay, the inline material path, serve_* overwrites); real sessions over localhost HTTP with all four kinds, bursts of overwrites, cross-peer overwrites after drains, 1..3 clients, IPv4/IPv6: per uuid the publications are replayed on the model, the model settles by fair rounds wherever the implementation drained and content / serve cache / pending debounce entries of every peer are compared; oracle: at every quiescent drain every peer holds byte-identical content (hash of the encoded asset) to the last publisher's.",
